@@ -70,11 +70,19 @@ fn hash_ipv4_flow(ip_packet: &[u8], num_workers: usize) -> usize {
     let src_port = u16::from_be_bytes([tcp_header[0], tcp_header[1]]);
     let dst_port = u16::from_be_bytes([tcp_header[2], tcp_header[3]]);
 
+    // Canonical endpoint order: a request and its response must reach the same worker
+    let (first_ip, second_ip, first_port, second_port) =
+        if endpoint_after(src_ip, src_port, dst_ip, dst_port) {
+            (dst_ip, src_ip, dst_port, src_port)
+        } else {
+            (src_ip, dst_ip, src_port, dst_port)
+        };
+
     let mut hasher = DefaultHasher::new();
-    src_ip.hash(&mut hasher);
-    dst_ip.hash(&mut hasher);
-    src_port.hash(&mut hasher);
-    dst_port.hash(&mut hasher);
+    first_ip.hash(&mut hasher);
+    second_ip.hash(&mut hasher);
+    first_port.hash(&mut hasher);
+    second_port.hash(&mut hasher);
 
     (hasher.finish() as usize)
         .checked_rem(num_workers)
@@ -108,15 +116,38 @@ fn hash_ipv6_flow(ip_packet: &[u8], num_workers: usize) -> usize {
     let src_port = u16::from_be_bytes([tcp_header[0], tcp_header[1]]);
     let dst_port = u16::from_be_bytes([tcp_header[2], tcp_header[3]]);
 
+    // Canonical endpoint order: a request and its response must reach the same worker
+    let (first_ip, second_ip, first_port, second_port) =
+        if endpoint_after(src_ip, src_port, dst_ip, dst_port) {
+            (dst_ip, src_ip, dst_port, src_port)
+        } else {
+            (src_ip, dst_ip, src_port, dst_port)
+        };
+
     let mut hasher = DefaultHasher::new();
-    src_ip.hash(&mut hasher);
-    dst_ip.hash(&mut hasher);
-    src_port.hash(&mut hasher);
-    dst_port.hash(&mut hasher);
+    first_ip.hash(&mut hasher);
+    second_ip.hash(&mut hasher);
+    first_port.hash(&mut hasher);
+    second_port.hash(&mut hasher);
 
     (hasher.finish() as usize)
         .checked_rem(num_workers)
         .unwrap_or(0)
+}
+
+/// Returns true when endpoint `a` sorts after endpoint `b` (address bytes first, then port).
+///
+/// The two endpoints of a connection are fed to the hasher in this canonical order, so that
+/// both directions of the connection are dispatched to the same worker.
+fn endpoint_after(a_ip: &[u8], a_port: u16, b_ip: &[u8], b_port: u16) -> bool {
+    let mut i: usize = 0;
+    while i < a_ip.len() && i < b_ip.len() {
+        if a_ip[i] != b_ip[i] {
+            return a_ip[i] > b_ip[i];
+        }
+        i = i.saturating_add(1);
+    }
+    a_port > b_port
 }
 
 /// Hashes a byte slice using DefaultHasher.
